@@ -720,9 +720,13 @@ def gen_real(rng):
     sensors = []
     for j in range(int(rng.choice([1, 2, 2, 3]))):
         radar = (j == 0 and rng.random() < 0.6) or rng.random() < 0.3
-        sensors.append({"lat": float(rng.uniform(-1.1, 1.1)), "lon": float(rng.uniform(-PI, PI)), "alt": float(rng.uniform(0, 3)),
-                        "labels": ["azimuth_rad", "elevation_rad", "range_km", "range_rate_km_p_sec"] if radar else ["azimuth_rad", "elevation_rad"],
-                        "sig": [float(10 ** rng.uniform(-6, -3)), float(10 ** rng.uniform(-6, -3)), float(10 ** rng.uniform(-3, -1)), float(10 ** rng.uniform(-6, -4))][: 4 if radar else 2]})
+        labels = ["azimuth_rad", "elevation_rad", "range_km", "range_rate_km_p_sec"] if radar else ["azimuth_rad", "elevation_rad"]
+        sig = [float(10 ** rng.uniform(-6, -3)), float(10 ** rng.uniform(-6, -3)), float(10 ** rng.uniform(-3, -1)), float(10 ** rng.uniform(-6, -4))][: 4 if radar else 2]
+        if rng.random() < 0.4:
+            # the component layout of a measurement is the caller's choice (e.g. range first): labels and noise permuted together
+            perm = [int(i) for i in rng.permutation(len(labels))]
+            labels, sig = [labels[i] for i in perm], [sig[i] for i in perm]
+        sensors.append({"lat": float(rng.uniform(-1.1, 1.1)), "lon": float(rng.uniform(-PI, PI)), "alt": float(rng.uniform(0, 3)), "labels": labels, "sig": sig})
     rho = float(10 ** rng.uniform(2.7, 4.5))
     side = float(rng.choice([-1.0, 1.0]))
     s_ang = float(10 ** rng.uniform(-6, -2))
@@ -761,8 +765,11 @@ def run_real(ctx, spec, only=None):
     f.predict(st.scenario_time(60.0))
     pres = f.getPredictionResult()
 
+    given = []  # the measured values in each observation's own component layout (independent of Observation.measurement_states)
+
     def build(turns=None):
         obs, k = [], 0
+        given.clear()
         for j, s in enumerate(spec["sensors"]):
             sen = np.array(ecef2eci(lla2ecef(np.array([s["lat"], s["lon"], s["alt"]])), utc), dtype=float)
             meas = Measurement.fromMeasurementLabels(s["labels"], np.diag(np.array(s["sig"]) ** 2))
@@ -774,6 +781,7 @@ def run_real(ctx, spec, only=None):
                     v = v + turns[k] * TWOPI
                     k += 1
                 kw[lab] = v
+            given.append([kw[lab] for lab in s["labels"]])
             obs.append(Observation(jd, 10001, 20001 + j, "Radar" if len(s["labels"]) == 4 else "Optical", sen, meas, **kw))
         return obs
 
@@ -785,7 +793,9 @@ def run_real(ctx, spec, only=None):
         return stats
     _chk_innovation(ctx, {**w0, "variant": {"type": "base"}}, "real-geometry update", base)
     r = _blk([np.array(o.r_matrix, dtype=float) for o in obs])
-    y = np.concatenate([np.array(o.measurement_states, dtype=float) for o in obs])
+    y = np.concatenate([np.array(g_, dtype=float) for g_ in given])
+    if any(s_["labels"][0] != "azimuth_rad" or (len(s_["labels"]) == 4 and s_["labels"][1:] != ["elevation_rad", "range_km", "range_rate_km_p_sec"]) for s_ in spec["sensors"]):
+        ctx.count("real_updates_with_permuted_component_layout")
     seam = _straddles(base, 0.0)
     if seam:
         ctx.count("real_updates_straddling_azimuth_seam")
